@@ -168,7 +168,9 @@ func (commander *Commander) CreateTransaction(ctx context.Context, parameters Pa
 	}
 
 	verifhook.Yield(ctx, "publish")
-	commander.monitor.CommittedTransactions(ctx, *log.Data.(ledger.NewTransactionLogPayload).Transaction, log.Data.(ledger.NewTransactionLogPayload).AccountMetadata)
+	if !parameters.DryRun {
+		commander.monitor.CommittedTransactions(ctx, *log.Data.(ledger.NewTransactionLogPayload).Transaction, log.Data.(ledger.NewTransactionLogPayload).AccountMetadata)
+	}
 
 	return log.Data.(ledger.NewTransactionLogPayload).Transaction, nil
 }
@@ -211,7 +213,9 @@ func (commander *Commander) SaveMeta(ctx context.Context, parameters Parameters,
 	}
 
 	verifhook.Yield(ctx, "publish")
-	commander.monitor.SavedMetadata(ctx, targetType, fmt.Sprint(targetID), m)
+	if !parameters.DryRun {
+		commander.monitor.SavedMetadata(ctx, targetType, fmt.Sprint(targetID), m)
+	}
 	return nil
 }
 
@@ -251,7 +255,9 @@ func (commander *Commander) RevertTransaction(ctx context.Context, parameters Pa
 	}
 
 	verifhook.Yield(ctx, "publish")
-	commander.monitor.RevertedTransaction(ctx, transactionToRevert, log.Data.(ledger.RevertedTransactionLogPayload).RevertTransaction)
+	if !parameters.DryRun {
+		commander.monitor.RevertedTransaction(ctx, transactionToRevert, log.Data.(ledger.RevertedTransactionLogPayload).RevertTransaction)
+	}
 
 	return log.Data.(ledger.RevertedTransactionLogPayload).RevertTransaction, nil
 }
@@ -315,7 +321,9 @@ func (commander *Commander) DeleteMetadata(ctx context.Context, parameters Param
 	}
 
 	verifhook.Yield(ctx, "publish")
-	commander.monitor.DeletedMetadata(ctx, targetType, targetID, key)
+	if !parameters.DryRun {
+		commander.monitor.DeletedMetadata(ctx, targetType, targetID, key)
+	}
 
 	return nil
 }
